@@ -44,6 +44,10 @@ where
 {
     #[allow(missing_docs)]
     pub wt_uni_streams: Vec<(SessionId, BufRecvStream<C::RecvStream, B>)>,
+    /// Waker of the task waiting for `wt_uni_streams` to be filled. Incoming streams are
+    /// resolved by whichever task polls the connection, which need not be the one that
+    /// picks them up here.
+    pub wt_uni_waker: Option<std::task::Waker>,
 }
 
 impl<B, C> Default for AcceptedStreams<C, B>
@@ -54,6 +58,7 @@ where
     fn default() -> Self {
         Self {
             wt_uni_streams: Default::default(),
+            wt_uni_waker: None,
         }
     }
 }
@@ -465,7 +470,10 @@ where
                 {
                     // Store until someone else picks it up, like a webtransport session which is
                     // not yet established.
-                    self.accepted_streams.wt_uni_streams.push((id, s))
+                    self.accepted_streams.wt_uni_streams.push((id, s));
+                    if let Some(waker) = self.accepted_streams.wt_uni_waker.take() {
+                        waker.wake();
+                    }
                 }
 
                 //= https://www.rfc-editor.org/rfc/rfc9114#section-6.2.3
